@@ -6,6 +6,7 @@ use sip_core::{Endpoint, Request};
 use sip_types::msg::MessageLine;
 use std::net::SocketAddr;
 use std::sync::Arc;
+use std::time::Duration;
 
 type EvLog = Arc<Mutex<Vec<(u64, u64, String)>>>; // (seq, ms, text)
 
@@ -101,7 +102,14 @@ pub async fn run_case(case: Vec<String>, detail: bool) -> String {
         "{m} sip:bob@10.9.9.9;transport=udp SIP/2.0\r\nFrom: \"Al\" <sip:al@example.org;x=1>;tag=ft1\r\n{to}Call-ID: cid-77\r\nCSeq: 4711 {m}\r\nMax-Forwards: 70\r\n{extra}Content-Length: 0\r\n\r\n",
         m = method, to = to_line, extra = extra_headers
     );
-    let request = request_from_text(&endpoint, text.as_bytes());
+    #[allow(unused_mut)]
+    let mut request = request_from_text(&endpoint, text.as_bytes());
+    // field 13: Content-Length values the application had put into the request's header list itself (comma separated)
+    if let Some(vals) = case.get(13).filter(|s| !s.is_empty()) {
+        for v in vals.split(',') {
+            request.headers.insert(sip_types::Name::CONTENT_LENGTH, v.to_string());
+        }
+    }
     // field 11: the sent-by to put into the Via instead of the transport's own address (a public address found by STUN, a gateway name);
     // "~" stands for the colon in front of the port
     let via_host_port = case.get(11).filter(|s| !s.is_empty() && s.as_str() != "-").map(|s| {
@@ -126,6 +134,9 @@ pub async fn run_case(case: Vec<String>, detail: bool) -> String {
     let ep2 = endpoint.clone();
     let is_inv = kind == "inv";
     let use_receive_final = case.get(12).map(|s| s == "rf").unwrap_or(false);
+    // field 12 = "late:<ms>": the caller starts waiting that long after send returned (the transaction's timers run from the send)
+    let late_ms: Option<u64> = case.get(12).and_then(|s| s.strip_prefix("late:")).and_then(|v| v.parse().ok());
+    let repoll_ms: Option<u64> = case.get(12).and_then(|s| s.strip_prefix("repoll:")).and_then(|v| v.parse().ok());
     let driver = tokio::spawn(async move {
         if is_inv {
             let mut tsx = match ep2.send_invite(request, &mut target).await {
@@ -135,8 +146,19 @@ pub async fn run_case(case: Vec<String>, detail: bool) -> String {
                     return;
                 }
             };
+            if let Some(ms) = late_ms {
+                tokio::time::sleep(Duration::from_millis(ms)).await;
+            }
             loop {
-                match tsx.receive().await {
+                // field 12 = "repoll:<ms>": the caller waits in slices (a select! / timeout around receive()) and calls receive() again
+                let got = match repoll_ms {
+                    Some(ms) => match tokio::time::timeout(Duration::from_millis(ms), tsx.receive()).await {
+                        Ok(r) => r,
+                        Err(_) => continue,
+                    },
+                    None => tsx.receive().await,
+                };
+                match got {
                     Ok(Some(r)) => {
                         let code = r.line.code.into_u16();
                         ev2.lock().push((next_seq(), now_ms(), format!("G:{}", cls(code))));
@@ -163,9 +185,21 @@ pub async fn run_case(case: Vec<String>, detail: bool) -> String {
                     return;
                 }
             };
+            if let Some(ms) = late_ms {
+                tokio::time::sleep(Duration::from_millis(ms)).await;
+            }
             loop {
                 // field 12 = "rf": the caller uses receive_final(), which hands over the final response only
-                let got = if use_receive_final { tsx.receive_final().await } else { tsx.receive().await };
+                let got = if use_receive_final {
+                    tsx.receive_final().await
+                } else if let Some(ms) = repoll_ms {
+                    match tokio::time::timeout(Duration::from_millis(ms), tsx.receive()).await {
+                        Ok(r) => r,
+                        Err(_) => continue,
+                    }
+                } else {
+                    tsx.receive().await
+                };
                 match got {
                     Ok(r) => {
                         let code = r.line.code.into_u16();
@@ -280,9 +314,11 @@ pub async fn run_case(case: Vec<String>, detail: bool) -> String {
             let text = String::from_utf8_lossy(m).to_string();
             let line0 = text.split("\r\n").next().unwrap_or("").to_string();
             let mut parts = vec![format!("line={}", line0)];
-            for h in ["via", "from", "to", "call-id", "cseq", "route"] {
+            for h in ["via", "from", "to", "call-id", "cseq", "route", "content-length", "l"] {
                 parts.push(format!("{}={}", h, header_lines(m, h).join("&&")));
             }
+            let body_len = m.windows(4).position(|w| w == b"\r\n\r\n").map(|p| m.len() - p - 4).unwrap_or(0);
+            parts.push(format!("bodylen={}", body_len));
             parts.join("||")
         };
         s.push_str("\tINVITE:");
